@@ -18,6 +18,8 @@ Record obs := mkObs {
   o_events : list event;
   o_returned : nat;           (* how many of the operations returned *)
   o_crashed : bool;           (* the server process died *)
+  o_overlap : bool;           (* the core loop left a request handler (reached core:after-request) while that
+                                 handler was still blocked in a step the harness held open *)
   o_final_running : bool;     (* at the end the source is (really) active *)
   o_progress : bool }.        (* ... and blocks were still being processed after the last operation *)
 
@@ -57,6 +59,7 @@ Definition io_fails (e : env) (r : request) (io : bool) : bool :=
   match r with
   | RqComment _ => io && e_writing e
   | RqWriteControl (WStart _ _ pathok) => negb pathok
+  | RqStoreRaw _ => io                              (* the temporary file cannot be created *)
   | _ => false
   end.
 
@@ -168,4 +171,5 @@ Definition C11_check (o : obs) : bool :=
   && Nat.eqb (o_returned o) (length (o_ops o))                 (* no call hangs *)
   && classes_ok (init_sigma o) (o_ops o) (ret_classes (o_events o))   (* one reply each, of the right class *)
   && exclusive (o_events o)
+  && negb (o_overlap o)                                        (* a handler is never left running beside the data *)
   && (negb (o_final_running o) || o_progress o).               (* data processing is not stalled *)
